@@ -61,9 +61,12 @@ PARTIAL = ["the local propagator itself (time_evolve) is property C20",
            "of target / next (two_site_heff_projected_tree, two_site_heff_projected_tree_up); ONE program "
            "(site_heff_whole_program with Ctx.ctx_block_built, soBlock_built_free): the matrix of the single-site "
            "function is built by the model's complete tensordot sequence from the operator tensors of all nodes and the "
-           "ket / bra tensors of all nodes except the site, and every such program evaluates to E^H H E; the whole-program "
-           "form is NOT written for the link / two-site functions (their blocks enter as built tensors: link_heff_built, "
-           "two_site_heff_built + the same two block lemmas); the value-level "
+           "ket / bra tensors of all nodes except the site, and every such program evaluates to E^H H E; the same whole-program "
+           "form for the link function (link_heff_whole_program: built from the tensors of ALL nodes, bond opened, both "
+           "sweep orientations) and the two-site function (two_site_heff_whole_program, two_site_heff_whole_program_up: "
+           "all operator tensors, ket / bra tensors of all nodes except the pair); E, H, B in these value clauses are ANY "
+           "admissible split of the leaves - a canonical envKet / envBra / opAll for a non-root site is NOT defined "
+           "(existence of a split is shown on examples only); the value-level "
            "semantics is tied to the code by the 'heffval' cases (integer tensors, the Lean model evaluates the proved "
            "record with netValue and must reproduce the library's matrix exactly) and the 'treeval' cases (every site, "
            "every edge in both orientations, every adjacent pair in both orders of every ordered tree with 2..4 nodes: "
